@@ -254,6 +254,9 @@ func runC17Pool(x *simkit.Exec) {
 					}
 					mu.Lock()
 					defer mu.Unlock()
+					if x.Failed() {
+						return false
+					}
 					rounded := false
 					if o.get {
 						b, err := p.Get(o.size)
